@@ -35,7 +35,7 @@ RULE = (
     "distinct by construction"
 )
 BOUNDS = {
-    "quick": "6 lat x 6 lon x 4 alt = 144 stations; 8 az x 4 el x 3 ranges x 2 velocities = 192 targets; 3 dates; per target Range on 7 signal paths (1-4 legs: one-way, two-way, three-way to a second station, relayed open/closed) and Azimut/Elevation/Doppler on one of the 7 in turn; every 8th target also measured from the same state given as cartesian/spherical in ITRF, EME2000, the measuring station and a second station; 6 mask tables x ~60 queries; mask histories: all 30 ordered table pairs on two re-used stations (table re-assigned 3 times, 14 azimuths); 6 integer-valued sites x 10 argument types (tuple/list/ndarray, int/float/numpy-int/mixed)",
+    "quick": "6 lat x 6 lon x 4 alt = 144 stations; 8 az x 4 el x 3 ranges x 2 velocities = 192 targets; 3 dates; per target Range on 7 signal paths (1-4 legs: one-way, two-way, three-way to a second station, relayed open/closed) and Azimut/Elevation/Doppler on one of the 7 in turn; every 8th target also measured from the same state given as cartesian/spherical in ITRF, EME2000, the measuring station and a second station; 6 mask tables x ~60 queries; mask histories: all 30 ordered table pairs on two re-used stations (table re-assigned 3 times, 14 azimuths); re-registration histories: the station name defined at 2-3 of 4 sites in turn (24 sequences x reset/no reset), origin + 28 targets after each definition; 6 integer-valued sites x 10 argument types (tuple/list/ndarray, int/float/numpy-int/mixed)",
     "thorough": "10 lat x 8 lon x 4 alt = 320 stations; 12 az x 6 el x 4 ranges x 3 velocities = 864 targets; 3 dates; same masks, 2 stations",
 }
 ASSUMPTIONS = [
@@ -187,6 +187,7 @@ def check_target(sta, site, dt, date, tg, t, with_measures=True, pidx=0, argtype
     case = dict(kind="target", site=list(site), date=list(dt), target=[az, el, rng, list(vel)], pidx=int(pidx), variants=bool(variants))
     if argtype:
         case["argtype"] = argtype
+    case.update(_G.get("case_extra") or {})
     s_ecef = gd.geodetic_to_ecef(lat, lon, alt, G["a"], G["f"])
     enu = gd.enu_from_az_el_range(az, el, rng)
     r_ecef = s_ecef + gd.enu_to_ecef(enu, lat, lon)
@@ -341,6 +342,7 @@ def check_origin(sta, site, dt, date, t, argtype=None):
     case = dict(kind="origin", site=list(site), date=list(dt))
     if argtype:
         case["argtype"] = argtype
+    case.update(_G.get("case_extra") or {})
     if _G.get("arg_mutated"):
         t.fail("station/argument-mutated", "create_station leaves the caller's coordinates untouched", case, _G["arg_mutated"][0], _G["arg_mutated"][1])
     s_ecef = gd.geodetic_to_ecef(lat, lon, alt, G["a"], G["f"])
@@ -491,6 +493,54 @@ def check_mask_history(i, j, t, site=(43.6, 1.44, 172.0)):
     world.restore(G["snap"])
 
 
+REBIND_SITES = [(43.6, 1.44, 172.0), (-33.45, -70.66, 520.0), (10.0, 120.0, 0.0), (-60.0, -179.9, 9000.0)]
+
+
+def rebind_sequences():
+    n = len(REBIND_SITES)
+    seqs = [[a, b] for a in range(n) for b in range(n) if a != b]
+    seqs += [[a, b, a] for a in range(n) for b in range(n) if a != b]
+    return seqs
+
+
+def check_rebind(seq, restore_between, t, tier="quick"):
+    """The station name 'Sta' (and the second station's name 'StaB') is defined at the sites of `seq` in turn, with or
+    without a registry reset in between; after each definition the origin and target checks run against the CURRENT site."""
+    from mc import world
+    from beyond.frames import create_station
+
+    G = _world()
+    world.restore(G["snap"])
+    _G.pop("masksta_key", None)
+    tg = targets(tier)
+    sub = tg[::7][:28]  # odd stride: both velocity classes, every elevation and range
+    dt = DATES[1]
+    date = mk_date(dt)
+    _G["case_extra"] = dict(rebind=[int(i) for i in seq], restore=bool(restore_between))
+    try:
+        for k, si in enumerate(seq):
+            site = REBIND_SITES[si]
+            if k and restore_between:
+                world.restore(G["snap"])
+            try:
+                _G["stb"] = create_station("StaB", (-(site[0] * 0.5) + 7.0, site[1] + 40.0, 250.0))
+                sta = create_station("Sta", site)
+            except Exception as e:
+                t.fail("station/create-raises", "a station can be re-created under a name already in use", dict(kind="origin", site=list(site), date=list(dt), **_G["case_extra"]),
+                       "a station", repr(e))
+                break
+            _G.pop("arg_mutated", None)
+            t.trans(2)
+            check_origin(sta, site, dt, date, t)
+            for i, x in enumerate(sub):
+                check_target(sta, site, dt, date, x, t, pidx=i, variants=(i % 6 == k))
+            t.states_add(1 + len(sub))
+            t.outcome(("rebind", k, bool(restore_between)))
+    finally:
+        _G.pop("case_extra", None)
+        world.restore(G["snap"])
+
+
 # ---------------------------------------------------------------------------
 
 
@@ -504,6 +554,8 @@ def check_case(case, t):
         return check_mask(case["mask"], case["azimuth"], t, tuple(case["site"]))
     if case["kind"] == "mask-history":
         return check_mask_history(case["i"], case["j"], t, tuple(case["site"]))
+    if case.get("rebind"):
+        return check_rebind(case["rebind"], case["restore"], t)
     site = tuple(case["site"])
     try:
         sta = make_station("Sta", *site, argtype=case.get("argtype") or "tuple-float")
@@ -528,6 +580,11 @@ def run_unit(p, t):
                     n += 1
         t.states_add(n)
         t.sample(dict(kind="mask", tables=len(p["masks"]), queries=n))
+        return
+    if p["part"] == "rebind":
+        for seq in p["seqs"]:
+            for restore_between in (False, True):
+                check_rebind(seq, restore_between, t, p["tier"])
         return
     if p["part"] == "mask-history":
         for i, j in p["pairs"]:
@@ -590,6 +647,9 @@ def units(tier, seed):
     pairs = [[i, j] for i in range(len(MASKS)) for j in range(len(MASKS)) if i != j]
     u.append((cfg, dict(part="mask-history", tier=tier, pairs=pairs[:15])))
     u.append((cfg, dict(part="mask-history", tier=tier, pairs=pairs[15:])))
+    seqs = rebind_sequences()
+    for k in range(0, len(seqs), 6):
+        u.append((cfg, dict(part="rebind", tier="quick", seqs=seqs[k : k + 6])))
     for k in range(0, len(INT_SITES), 2):
         u.append((cfg, dict(part="argtypes", tier=tier, sites=[list(x) for x in INT_SITES[k : k + 2]])))
     return u
